@@ -122,6 +122,7 @@ def run_schedule(g, genesis, originals, dist, nblocks, rng, covered, explicit, L
                 if len(decisions) >= L:
                     break
                 key0 = (o, tuple(sorted(w1.m.val.items())))
+                covered.add(("state", key0, k))
                 fresh = [j for j in range(k) if (key0, j) not in covered]
                 if exit_bias and rng.chance(exit_bias):
                     succ = w0.succ[w0.cur]
@@ -260,6 +261,7 @@ def run_case(case, keep_log=False):
     total_arcs = sum(len(d[2]) for d in genesis)
     arcs_taken = set()
     long_sched = False
+    all_closed = True
     for stage in range(4):
         if stage:
             try:
@@ -290,7 +292,30 @@ def run_case(case, keep_log=False):
             scheds = explicit.get(str(stage), [])
         else:
             scheds = [None] * m
-        for si, ex in enumerate(scheds):
+        si = -1
+        extra = 0
+        closed_here = None
+        while True:
+            si += 1
+            if si < len(scheds):
+                ex = scheds[si]
+            else:
+                # product closure (DESIGN 4.3): a (block, valuation) state is open while
+                # one of its decisions has not been taken from it; when no discovered
+                # state is open, every reachable (state, decision) pair of the product
+                # of the original with the restructured graph has been exercised.
+                # Up to m more guided schedules are spent on closing a stage.
+                if explicit is not None:
+                    break
+                open_pairs = sum(1 for c in covered if c[0] == "state"
+                                 for j in range(c[2]) if (c[1], j) not in covered)
+                closed_here = open_pairs == 0
+                if closed_here or extra >= m:
+                    stats["open_pairs"] = stats.get("open_pairs", 0) + open_pairs
+                    break
+                extra += 1
+                stats["extra_schedules"] = stats.get("extra_schedules", 0) + 1
+                ex = None
             srng = rng.fork("%d/%d" % (stage, si))
             decisions, viols, info = run_schedule(
                 g, genesis, originals, dist, nblocks, srng, covered, ex, L, stats)
@@ -307,12 +332,15 @@ def run_case(case, keep_log=False):
                     if r["signature"] not in seen_sig:
                         seen_sig.add(r["signature"])
                         res["violations"].append(r)
+        if closed_here is False:
+            all_closed = False
     kinds = hier.count_kinds(g)
     res["reach"] = {
         "arc_coverage_pct": int(100 * len(arcs_taken) / total_arcs) if total_arcs else 100,
         "regions": kinds["regions"], "branching": kinds["branching"],
         "maxdepth": kinds["maxdepth"], "n": len(genesis),
         "kind": wl["kind"] + ":" + wl.get("family", ""),
+        "product_closed": int(all_closed and explicit is None and res["inconclusive"] is None),
     }
     lf = graphgen.loop_facts(genesis)
     for k in ("multi_header", "multi_exit", "multi_latch"):
